@@ -293,7 +293,19 @@ def run_kani(pkg, harnesses, unwind_note=None, timeout=1800):
     per = []
     # terse output: "Checking harness X..." ... "VERIFICATION:- SUCCESSFUL|FAILED"
     cur = None
+    by_thread = {}
     for ln in out.split("\n"):
+        # with -j N the output is grouped per thread: "Thread 3: Checking harness X..." then "Thread 3: " + result block
+        mt = re.match(r"^Thread (\d+): ?(.*)$", ln)
+        if mt:
+            tid, rest_ = mt.group(1), mt.group(2)
+            mm = re.match(r"^Checking harness (\S+?)\.\.\.", rest_)
+            if mm:
+                by_thread[tid] = {"harness": mm.group(1), "status": None, "checks": 0, "failed": [], "time": None}
+                per.append(by_thread[tid]); cur = None
+            else:
+                cur = by_thread.get(tid)
+            continue
         mm = re.match(r"^Checking harness (\S+?)\.\.\.", ln)
         if mm:
             cur = {"harness": mm.group(1), "status": None, "checks": 0, "failed": [], "time": None}
